@@ -172,6 +172,14 @@ def main_for(prop, run, argv=None):
     ap.add_argument("--verbose", action="store_true")
     args = ap.parse_args(argv)
     os.environ["PYTHONHASHSEED"] = "0"
+    wanted = None
+    if args.replay:
+        # a replay file records tier, seed and the identifying facts of one violation: the (seeded, deterministic) run is repeated
+        # and only a violation with the same facts counts
+        with open(args.replay) as f:
+            body = json.load(f)
+        args.tier, args.seed, wanted = body.get("tier", args.tier), int(body.get("seed", args.seed)), body.get("facts")
+        print("replaying %s: tier=%s seed=%s facts=%s" % (args.replay, args.tier, args.seed, json.dumps(wanted, default=str)[:300]))
     ctx = Ctx(prop, args.tier, args.seed, args.replay)
     ctx.verbose = args.verbose
     try:
@@ -180,6 +188,14 @@ def main_for(prop, run, argv=None):
         traceback.print_exc()
         print("MACHINERY-FAILURE property=%s %s: %s" % (prop, type(ex).__name__, str(ex)[:2000]))
         return 2
+    if wanted is not None:
+        same = [v for v in ctx.violations if json.dumps(v["facts"], sort_keys=True, default=str) == json.dumps(wanted, sort_keys=True, default=str)]
+        if same:
+            print("VIOLATION property=%s replay=%s" % (prop, args.replay))
+            print("   reproduced %d time(s); first case: %s" % (len(same), json.dumps(same[0]["case"], default=str)[:1200]))
+            return 1
+        print("%s: the recorded violation did not recur on the current tree" % prop)
+        return 0
     if ctx.states < 1 or ctx.transitions < 1:
         print("MACHINERY-FAILURE property=%s no TLC states explored" % prop)
         return 2
